@@ -40,8 +40,10 @@ fn run(prop: &str, tier: Tier) -> i32 {
         "C05" => checks::c05::run(tier),
         "C06" => checks::c06::run(tier),
         "C07" => checks::c07::run(tier),
+        "C08" => checks::c08::run(tier),
         "C09" => checks::c09::run(tier),
         "C11" => checks::c11::run(tier),
+        "C14" => checks::c14::run(tier),
         "C15" => checks::c15::run(tier),
         _ => {
             eprintln!("unknown property {prop}");
@@ -77,6 +79,7 @@ fn replay(path: &str) -> i32 {
         "C06" | "C07" | "C08" => checks::c07::replay(&case),
         "C09" => checks::c09::replay(&case),
         "C11" => checks::c11::replay(&case),
+        "C14" => checks::c14::replay(&case),
         "C15" => checks::c15::replay(&case),
         _ => {
             eprintln!("unknown property in replay file");
